@@ -4,7 +4,7 @@ import GsModel.Scan.GoTypes
 
   `Scan.schemaOf` is the schema the scanner builds for a Go type, `Scan.encode` the JSON encoding/json produces for a value
   of it, `Scan.accepts` strict draft-4 acceptance of the structural part of a schema.
-  * `conforms_containers` — for EVERY type built from basic kinds, time.Time, []byte, interface{}, pointers, slices, arrays and
+  * `conforms_containers` — for EVERY type built from basic kinds, time.Time, text-marshalling types (encoding.TextMarshaler), []byte, interface{}, pointers, slices, arrays and
     string-keyed maps (any nesting) and EVERY value of it: if the encoding contains no JSON null, the scanned schema accepts
     it.
   * `conforms` — the same for EVERY well-formed model type INCLUDING structs at any depth (json names distinct within a
@@ -30,6 +30,7 @@ def container : Nat → GoTy → Bool
   | n+1, .arr t => container n t
   | n+1, .map t => container n t
   | _+1, .time => true
+  | _+1, .text => true
   | _+1, .bytes => true
   | _+1, .iface => true
   | _+1, _ => false
@@ -125,6 +126,7 @@ theorem conforms_containers (b : Bool) : ∀ (n : Nat) (t : GoTy) (v : GoVal) (j
                 exact conforms_containers b n t a.2 j k hc hj hq)
       | _ => simp [encode] at he
     | time => cases v <;> simp [encode] at he <;> subst he <;> simp [accepts, schemaOf, typeOk]
+    | text => cases v <;> simp [encode] at he <;> subst he <;> simp [accepts, schemaOf, typeOk]
     | iface =>
       have : schemaOf b (n+1) .iface = {} := rfl
       rw [this]; exact accepts_any k j
@@ -163,6 +165,7 @@ def wf : Nat → GoTy → Bool
   | n+1, .map t => wf n t
   | n+1, .strct fs => distinctNames fs && fs.all (fun ft => wf n ft.2 && (!ft.1.asString || stringable ft.2))
   | _+1, .time => true
+  | _+1, .text => true
   | _+1, .bytes => true
   | _+1, .iface => true
 
@@ -279,6 +282,7 @@ theorem conforms : ∀ (n : Nat) (t : GoTy) (v : GoVal) (j : J) (m : Nat),
                 exact conforms n t a.2 j k hc hj hq)
       | _ => simp [encode] at he
     | time => cases v <;> simp [encode] at he <;> subst he <;> simp [accepts, schemaOf, typeOk]
+    | text => cases v <;> simp [encode] at he <;> subst he <;> simp [accepts, schemaOf, typeOk]
     | iface =>
       have : schemaOf false (n+1) .iface = {} := rfl
       rw [this]; exact accepts_any k j
@@ -380,5 +384,15 @@ theorem struct_examples :
       (accepts 6 (schemaOf false 6 exTy)) = some true ∧
     (encode 6 exTy (.strct [.int 7, .str "n", .float 0, .list [], .strct [.bool false], .time "t"])).map
       (accepts 6 (schemaOf true 6 exTy)) = some true := by decide
+
+/-- text-marshalling types (encoding.TextMarshaler, value or pointer receiver reached through a pointer): as a field, behind a
+    pointer, as slice elements and map values the scanned schema says `string` and encoding/json writes a string -/
+def textTy : GoTy := .strct [({ json := "price" }, .text), ({ json := "share" }, .ptr .text),
+  ({ json := "shares" }, .slice (.ptr .text)), ({ json := "by_name" }, .map (.ptr .text))]
+theorem text_marshalers_conform :
+    wf 6 textTy = true ∧
+    (encode 6 textTy (.strct [.text "12", .ptr (.text "1/2"), .list [.ptr (.text "3/4")], .map [("k", .ptr (.text "5/6"))]])).map
+      (accepts 8 (schemaOf false 6 textTy)) = some true := by
+  decide
 
 end Gs.Props.C16
